@@ -63,6 +63,15 @@ Definition handle (frame : slice) : pres (list N) :=
       end
   end.
 
+(* the reply to the frame cut off by m.received.Next(n) when the classifier returned (n, err):
+   `if err != nil { response = append(response, err.( *packet.ErrorParseTCP).Bytes()...); continue }`
+   (a packet with an unsupported function code is answered and skipped), else m.handle(ctx, frame) *)
+Definition answer (frame : slice) (err : option perr) : pres (list N) :=
+  match err with
+  | Some e => match err_wire_tcp e with Some w => Ok w | None => Panic end
+  | None => handle frame
+  end.
+
 Definition panicked (b : list N) : rr := {| r_buf := b; r_out := []; r_status := Panicked |}.
 
 (* the `for { ... }` of ReceiveRead on the buffered bytes [b] with the accumulated [response].
@@ -95,17 +104,9 @@ Fixpoint drain (fuel : nat) (b : list N) (response : list N) : rr :=
           let k := N.to_nat n in
           let frame := {| vis := firstn k b; spare := skipn k b |} in   (* m.received.Next(n) *)
           let b' := skipn k b in
-          match err with
-          | Some e =>                            (* unsupported function code: answered and skipped *)
-              match err_wire_tcp e with
-              | Some w => drain fuel' b' (response ++ w)
-              | None => panicked b'
-              end
-          | None =>
-              match handle frame with
-              | Ok w => drain fuel' b' (response ++ w)
-              | _ => panicked b'
-              end
+          match answer frame err with
+          | Ok w => drain fuel' b' (response ++ w)
+          | _ => panicked b'
           end
       end
     end
